@@ -230,18 +230,9 @@ func C09(ctx *core.Ctx) {
 	}
 
 	// ---- R2 ---------------------------------------------------------------------
-	if rr := r.Fn("C09.R2", "(*FProtocol).ReadRequestHeader"); rr != nil {
-		rn := ssax.Name(rr)
-		var headers ssa.Value
-		for _, c := range ssax.Calls(rr) {
-			if c.Static != nil && c.Static.Pkg == r.Pkg && returnsHeaderMap(c.Static) {
-				for _, u := range *c.Instr.Value().Referrers() {
-					if e, ok := u.(*ssa.Extract); ok && e.Index == 0 {
-						headers = e
-					}
-				}
-			}
-		}
+	if rr0 := r.Fn("C09.R2", "(*FProtocol).ReadRequestHeader"); rr0 != nil {
+		rn := ssax.Name(rr0)
+		rr, headers := headerConsumer(r, rr0)
 		var al ssa.Value
 		ssax.Instrs(rr, func(in ssa.Instruction) {
 			if a, ok := in.(*ssa.Alloc); ok && ssax.TypeNamed(a.Type(), "", "FContextImpl") {
@@ -497,4 +488,48 @@ func C09(ctx *core.Ctx) {
 		ctx.Check(radSet == radGet && radSet == 10, "C09.R4", "SetTimeout/Timeout › same radix", fnPos(r, st), "radix 10 both ways", "different radix for encoding and decoding the timeout")
 	}
 	_ = types.Typ
+}
+
+// headerConsumer: the function that turns the decoded header map into the
+// context — ReadRequestHeader itself, or the helper of the package it hands
+// the map to — together with the map value as seen in that function.
+func headerConsumer(r *RT, entry *ssa.Function) (*ssa.Function, ssa.Value) {
+	var headers ssa.Value
+	for _, c := range ssax.Calls(entry) {
+		if c.Static != nil && c.Static.Pkg == r.Pkg && returnsHeaderMap(c.Static) {
+			for _, u := range *c.Instr.Value().Referrers() {
+				if e, ok := u.(*ssa.Extract); ok && e.Index == 0 {
+					headers = e
+				}
+			}
+		}
+	}
+	if headers == nil {
+		return entry, nil
+	}
+	// is the map ranged over here?
+	ranged := func(f *ssa.Function, m ssa.Value) bool {
+		found := false
+		ssax.Instrs(f, func(in ssa.Instruction) {
+			if rg, ok := in.(*ssa.Range); ok && ssax.Strip(rg.X) == ssax.Strip(m) {
+				found = true
+			}
+		})
+		return found
+	}
+	if ranged(entry, headers) {
+		return entry, headers
+	}
+	for _, c := range ssax.Calls(entry) {
+		g := c.Static
+		if g == nil || g.Pkg != r.Pkg || len(g.Blocks) == 0 {
+			continue
+		}
+		for i, a := range c.Common.Args {
+			if ssax.Strip(a) == headers && i < len(g.Params) && ranged(g, g.Params[i]) {
+				return g, g.Params[i]
+			}
+		}
+	}
+	return entry, headers
 }
